@@ -31,7 +31,7 @@ func (c09) Meta() fw.Meta {
 			"the oracle uses the clock the command printed; the symmetry relation is only judged when both runs printed the same clock",
 			"a glob pattern that matches nothing on the source side is not a 'missing file' and is not judged here (C16 covers it)",
 		},
-		Obligations: []string{"diff_runs", "clean_verdicts", "diff_verdicts", "records_checked", "self_diff", "identical_files", "ulp_apart", "signed_zero_equal", "nan_vs_nan_equal", "nan_vs_value", "missing_src", "missing_dest", "layout_mismatch_error", "symmetry_checked", "glob_one_differs", "glob_none_differs", "single_archive_selection", "remote_side_runs", "text_out_file_runs", "never_written_side", "symlinked_source_in_glob", "unclean_base_spelling"},
+		Obligations: []string{"diff_runs", "clean_verdicts", "diff_verdicts", "records_checked", "self_diff", "identical_files", "ulp_apart", "signed_zero_equal", "nan_vs_nan_equal", "nan_vs_value", "missing_src", "missing_dest", "layout_mismatch_error", "symmetry_checked", "glob_one_differs", "glob_none_differs", "single_archive_selection", "remote_side_runs", "text_out_file_runs", "never_written_side", "symlinked_source_in_glob", "unclean_base_spelling", "remote_glob_runs"},
 		Workers:     12,
 	}
 }
@@ -190,6 +190,9 @@ func (c09) Run(c *fw.Ctx) {
 	}
 	for i := 0; i < nfiles; i++ {
 		rel := fmt.Sprintf("f%d.wsp", i)
+		if sc.Glob && i == 2 {
+			rel = "f 2 x.wsp" // a name containing whitespace
+		}
 		sc.Files = append(sc.Files, rel)
 		cont := genContent(r, l, now, 0.3+0.6*r.Float64())
 		ap, bp := filepath.Join(aBase, rel), filepath.Join(bBase, rel)
@@ -307,6 +310,23 @@ func (c09) Run(c *fw.Ctx) {
 	}
 	extra := []string(nil)
 	patArg := pat
+	if sc.Glob && c.Index%3 == 1 {
+		// glob mode with the source served by the real server: the destination tree mirrors the served path
+		if u, served, ok := workerServer(c); ok {
+			name := fmt.Sprintf("c09g-%d", c.Index)
+			link := filepath.Join(served, name)
+			os.Symlink(aBase, link)
+			defer os.Remove(link)
+			rdest := filepath.Join(dir, "rdest")
+			mustMkdir(rdest)
+			os.Symlink(destBase, filepath.Join(rdest, name))
+			srcBaseArg, destBaseArg = u, rdest
+			patArg = name + "/" + pat
+			sc.Kind += "+remote-src-glob"
+			c.Count("remote_side_runs", 1)
+			c.Count("remote_glob_runs", 1)
+		}
+	}
 	if !sc.Glob && c.Index%3 == 2 && sc.Kind != "self" {
 		if u, served, ok := workerServer(c); ok {
 			link := filepath.Join(served, fmt.Sprintf("c09-%d", c.Index))
@@ -381,12 +401,19 @@ func (c09) Run(c *fw.Ctx) {
 	anyDiff := false
 	nontrivial := false
 	missing := 0
-	for fi, rel := range sc.Files {
-		nl := out.Nows[fi]
-		if nl.Name != rel && filepath.Base(nl.Name) != rel {
-			c.Violationf("diff-now-lines", det(), "now: line %d names %q, want %q", fi, nl.Name, rel)
+	for _, rel := range sc.Files {
+		// files are matched by name: the order of the listing is not part of the property
+		fi := -1
+		for k := range out.Nows {
+			if out.Nows[k].Name == rel || filepath.Base(out.Nows[k].Name) == rel {
+				fi = k
+			}
+		}
+		if fi < 0 {
+			c.Violationf("diff-now-lines", det(), "the matched file %q has no now: line in the output: it was not compared", rel)
 			return
 		}
+		nl := out.Nows[fi]
 		until := sc.Until
 		if until == 0 {
 			until = nl.Now
